@@ -277,14 +277,33 @@ theorem lowerE_mono : ∀ (e : Expr) (c : Nat) (code : Code) (v : Value) (c' : N
     have ⟨m1, b1⟩ := lowerE_mono e c ce ve c1 h1
     have ⟨a1, _⟩ := atv_spec ve c1 b1
     exact ⟨by omega, trivial⟩
+  | .some e, c, code, v, c', h => by
+    simp [lowerE, Option.bind_eq_some_iff] at h
+    obtain ⟨ce, ve, c1, h1, _, rfl, rfl⟩ := h
+    have ⟨m1, b1⟩ := lowerE_mono e c ce ve c1 h1
+    have ⟨a1, _⟩ := atv_spec ve c1 b1
+    exact ⟨by omega, ⟨_, rfl, by omega⟩⟩
+  | .none, c, code, v, c', h => by
+    simp [lowerE] at h; obtain ⟨_, rfl, rfl⟩ := h; exact ⟨by omega, ⟨c, rfl, by omega⟩⟩
+  | .accept e, c, code, v, c', h => by
+    simp [lowerE, Option.bind_eq_some_iff] at h
+    obtain ⟨ce, ve, c1, h1, _, rfl, rfl⟩ := h
+    have ⟨m1, _⟩ := lowerE_mono e c ce ve c1 h1
+    exact ⟨by omega, trivial⟩
+  | .reject e, c, code, v, c', h => by
+    simp [lowerE, Option.bind_eq_some_iff] at h
+    obtain ⟨ce, ve, c1, h1, _, rfl, rfl⟩ := h
+    have ⟨m1, _⟩ := lowerE_mono e c ce ve c1 h1
+    exact ⟨by omega, trivial⟩
+  | .try e, c, code, v, c', h => by
+    simp [lowerE, Option.bind_eq_some_iff] at h
+    obtain ⟨ce, ve, c1, h1, _, rfl, rfl⟩ := h
+    have ⟨m1, b1⟩ := lowerE_mono e c ce ve c1 h1
+    have ⟨a1, _⟩ := atv_spec ve c1 b1
+    exact ⟨by omega, trivial⟩
   | .call .., _, _, _, _, h => by simp [lowerE] at h
   | .mtch .., _, _, _, _, h => by simp [lowerE] at h
   | .for .., _, _, _, _, h => by simp [lowerE] at h
-  | .accept .., _, _, _, _, h => by simp [lowerE] at h
-  | .reject .., _, _, _, _, h => by simp [lowerE] at h
-  | .try .., _, _, _, _, h => by simp [lowerE] at h
-  | .some .., _, _, _, _, h => by simp [lowerE] at h
-  | .none, _, _, _, _, h => by simp [lowerE] at h
   | .ctor .., _, _, _, _, h => by simp [lowerE] at h
   | .record .., _, _, _, _, h => by simp [lowerE] at h
   | .field .., _, _, _, _, h => by simp [lowerE] at h
@@ -329,5 +348,154 @@ theorem lowerBlock_mono : ∀ (b : Block) (c : Nat) (code : Code) (x : Var) (c' 
     have ⟨m2, b2⟩ := lowerBlock_mono rest _ cr xr c2 h2
     exact ⟨by omega, b2⟩
 end
+
+/-! ### which variables a lazy operand reads -/
+
+/-- the variables an operand reads -/
+def Value.vars : Value → List Var
+  | .const _ => []
+  | .clone x => [x]
+  | .move x => [x]
+  | .binop l _ r => [l, r]
+  | .not x => [x]
+  | .neg x => [x]
+  | .callRt _ args => args
+  | .disc x => [x]
+  | .cloneProj x _ => [x]
+
+/-- every temporary the operand reads was allocated below the counter -/
+def ValueBound (v : Value) (c : Nat) : Prop := ∀ k, Var.t k ∈ v.vars → k < c
+
+theorem evalValue_congr {σ σ' : Store} {v : Value} (h : ∀ x ∈ v.vars, σ' x = σ x) :
+    evalValue σ' v = evalValue σ v := by
+  cases v with
+  | const _ => rfl
+  | callRt f args =>
+    have : args.map σ' = args.map σ := List.map_congr_left (by simpa [Value.vars] using h)
+    simp [evalValue, this]
+  | _ => simp_all [evalValue, Value.vars]
+
+theorem evalValue_set_fresh {σ : Store} {v : Value} {c k : Nat} (w : Val) (hb : ValueBound v c) (hk : c ≤ k) :
+    evalValue (σ.set (.t k) w) v = evalValue σ v := by
+  apply evalValue_congr
+  intro x hx
+  apply set_other
+  intro hxe
+  subst hxe
+  have := hb k hx
+  omega
+
+theorem atv_bound (v : Value) (c : Nat) (hb : MoveBound v c) {k : Nat} (h : atvVar v c = .t k) : k < atvNext v c := by
+  obtain ⟨_, k', hk', hlt⟩ := atv_spec v c hb
+  rw [hk'] at h; cases h; exact hlt
+
+theorem lowerE_valueBound (e : Expr) (c : Nat) (code : Code) (v : Value) (c' : Nat)
+    (h : lowerE e c = some (code, v, c')) : ValueBound v c' := by
+  intro k hk
+  cases e with
+  | lit _ => simp [lowerE] at h; obtain ⟨_, rfl, rfl⟩ := h; simp [Value.vars] at hk
+  | var _ => simp [lowerE] at h; obtain ⟨_, rfl, rfl⟩ := h; simp [Value.vars] at hk
+  | host f args =>
+    simp [lowerE, Option.bind_eq_some_iff] at h
+    obtain ⟨a, b, c1, h1, _, rfl, rfl⟩ := h
+    obtain ⟨_, rfl', _, hlt⟩ := (lowerArgs_mono args c a b c1 h1).2 _ (by simpa [Value.vars] using hk)
+    cases rfl'; exact hlt
+  | bin op l r =>
+    simp [lowerE, Option.bind_eq_some_iff] at h
+    obtain ⟨cl, vl, c1, h1, cr, vr, c2, h2, _, rfl, rfl⟩ := h
+    have ⟨m1, b1⟩ := lowerE_mono l c cl vl c1 h1
+    have ⟨m2, b2⟩ := lowerE_mono r _ cr vr c2 h2
+    have ⟨a2, _⟩ := atv_spec vr c2 b2
+    simp [Value.vars] at hk
+    rcases hk with hk | hk
+    · have := atv_bound vl c1 b1 hk.symm; omega
+    · exact atv_bound vr c2 b2 hk.symm
+  | and l r =>
+    simp [lowerE, Option.bind_eq_some_iff] at h
+    obtain ⟨cl, vl, c1, h1, cr, vr, c2, h2, _, rfl, rfl⟩ := h
+    have ⟨m1, _⟩ := lowerE_mono l _ cl vl c1 h1
+    have ⟨m2, _⟩ := lowerE_mono r _ cr vr c2 h2
+    simp [Value.vars] at hk; omega
+  | or l r =>
+    simp [lowerE, Option.bind_eq_some_iff] at h
+    obtain ⟨cl, vl, c1, h1, cr, vr, c2, h2, _, rfl, rfl⟩ := h
+    have ⟨m1, _⟩ := lowerE_mono l _ cl vl c1 h1
+    have ⟨m2, _⟩ := lowerE_mono r _ cr vr c2 h2
+    simp [Value.vars] at hk; omega
+  | not e1 =>
+    simp [lowerE, Option.bind_eq_some_iff] at h
+    obtain ⟨ce, ve, c1, h1, _, rfl, rfl⟩ := h
+    have ⟨m1, b1⟩ := lowerE_mono e1 c ce ve c1 h1
+    simp [Value.vars] at hk
+    exact atv_bound ve c1 b1 hk.symm
+  | neg e1 =>
+    simp [lowerE, Option.bind_eq_some_iff] at h
+    obtain ⟨ce, ve, c1, h1, _, rfl, rfl⟩ := h
+    have ⟨m1, b1⟩ := lowerE_mono e1 c ce ve c1 h1
+    simp [Value.vars] at hk
+    exact atv_bound ve c1 b1 hk.symm
+  | «try» e1 =>
+    simp [lowerE, Option.bind_eq_some_iff] at h
+    obtain ⟨ce, ve, c1, h1, _, rfl, rfl⟩ := h
+    have ⟨m1, b1⟩ := lowerE_mono e1 c ce ve c1 h1
+    simp [Value.vars] at hk
+    have := atv_bound ve c1 b1 hk.symm; omega
+  | ite cnd th el =>
+    have hm := (lowerE_mono _ c code v c' h).2
+    simp [lowerE, Option.bind_eq_some_iff] at h
+    obtain ⟨_, _, _, _, _, _, _, _, _, _, _, _, _, rfl, _⟩ := h
+    obtain ⟨k', hk', hlt⟩ := hm; cases hk'; simp [Value.vars] at hk; omega
+  | if1 cnd th =>
+    have hm := (lowerE_mono _ c code v c' h).2
+    simp [lowerE, Option.bind_eq_some_iff] at h
+    obtain ⟨_, _, _, _, _, _, _, _, _, rfl, _⟩ := h
+    obtain ⟨k', hk', hlt⟩ := hm; cases hk'; simp [Value.vars] at hk; omega
+  | «while» cnd b =>
+    simp [lowerE, Option.bind_eq_some_iff] at h
+    obtain ⟨_, _, _, _, _, _, _, _, _, rfl, _⟩ := h
+    simp [Value.vars] at hk
+  | block b =>
+    have hm := (lowerE_mono _ c code v c' h).2
+    simp [lowerE, Option.bind_eq_some_iff] at h
+    obtain ⟨_, _, _, _, _, rfl, _⟩ := h
+    obtain ⟨k', hk', hlt⟩ := hm; cases hk'; simp [Value.vars] at hk; omega
+  | assign x e1 =>
+    simp [lowerE, Option.bind_eq_some_iff] at h
+    obtain ⟨_, _, _, _, _, rfl, _⟩ := h
+    simp [Value.vars] at hk
+  | cassign op x e1 =>
+    simp [lowerE, Option.bind_eq_some_iff] at h
+    obtain ⟨_, _, _, _, _, _, rfl, _⟩ := h
+    simp [Value.vars] at hk
+  | ret e1 =>
+    simp [lowerE, Option.bind_eq_some_iff] at h
+    obtain ⟨_, _, _, _, _, rfl, _⟩ := h
+    simp [Value.vars] at hk
+  | some e1 =>
+    have hm := (lowerE_mono _ c code v c' h).2
+    simp [lowerE, Option.bind_eq_some_iff] at h
+    obtain ⟨_, _, _, _, _, rfl, _⟩ := h
+    obtain ⟨k', hk', hlt⟩ := hm; cases hk'; simp [Value.vars] at hk; omega
+  | none =>
+    have hm := (lowerE_mono _ c code v c' h).2
+    simp [lowerE] at h
+    obtain ⟨_, rfl, _⟩ := h
+    obtain ⟨k', hk', hlt⟩ := hm; cases hk'; simp [Value.vars] at hk; omega
+  | accept e1 =>
+    simp [lowerE, Option.bind_eq_some_iff] at h
+    obtain ⟨_, _, _, _, _, rfl, _⟩ := h
+    simp [Value.vars] at hk
+  | reject e1 =>
+    simp [lowerE, Option.bind_eq_some_iff] at h
+    obtain ⟨_, _, _, _, _, rfl, _⟩ := h
+    simp [Value.vars] at hk
+  | call f args => simp [lowerE] at h
+  | mtch s arms => simp [lowerE] at h
+  | «for» x l b => simp [lowerE] at h
+  | ctor k args => simp [lowerE] at h
+  | record fs => simp [lowerE] at h
+  | field e1 i => simp [lowerE] at h
+  | list es => simp [lowerE] at h
+  | fstr ps => simp [lowerE] at h
 
 end RotoV.LowerS
